@@ -31,6 +31,11 @@ ASSUMPTIONS = [
     "empty requests are outside the quantifier (request.service_id raises IndexError; robustness is property C14); "
     "the model reports them as `crash index` and the harness checks exactly that",
     "active session < 256 (to_bytes(session, 1) in the session-read rule)",
+    "process-level parser state (per-class tables filled while parsing: UDSService._SERVICES, the nested SubFunction classes of "
+    "RoutineControl / ReadDTCInformation / DynamicallyDefineDataIdentifier) is not part of the model, which answers from the request "
+    "BYTES alone; section 7 (harness/c13_order.py) therefore runs histories that mix these services in every order, each in a "
+    "freshly started interpreter, against the concrete model and checks that (state, request) -> answer is the same across "
+    "processes; orders of OTHER services parsed first in a process are covered only by the single long-lived check process",
     "time: the clock is read exactly twice per request (start, end) and is a multiple of 0.25 s in the tie (exact in binary "
     "floating point); the model counts ticks of 0.25 s in natural numbers (a clock running backwards counts as no gap)",
 ]
@@ -855,7 +860,9 @@ MANIFEST = {
                    "reached states, sampled longer requests, state-aware histories, all 512 switch subsets in the thorough "
                    "tier (pairwise in quick), and all request sequences over 10 / 12 request kinds up to length 5 / 4 (6 / 5 "
                    "thorough) compared state by state and reply by reply with the concrete model, idle gaps of 9..11.25 s x "
-                   "handling durations, the state machine under switch subsets."),
+                   "handling durations, the state machine under switch subsets; and histories mixing the specialised "
+                   "sub-function services (31 / 19 / 2C, with and without suppress bit) in every order, each in a freshly started "
+                   "server process, compared with the concrete model plus an order-independence probe across processes."),
     "level_note": ("Trusted: Lean kernel (propext, Quot.sound, Classical.choice), the translator gen/c13_chain.py, the "
                    "harness incl. its RNG recorder and scripted clock. In the single-request part request parsing enters as "
                    "an input bit and respond_after_default as a recorded value; in the history part only the random draws "
